@@ -675,9 +675,47 @@ class Interp:
                 # a[mask] = v  /  a[(0, 0)] = v  on an array modelled by one arbitrary element
                 frame.vars[target.value.id] = v_ite(self.pointwise_selector(idx), v, obj)
                 return
+            if isinstance(obj, SymSeq) and getattr(obj, "fresh_array", False) and isinstance(target.value, ast.Name):
+                # store into a 1-D array that this function created itself (np.zeros / np.ones) and that has not escaped:
+                # functional update, the local name is rebound (A-FRESH-ARRAY: no alias of the array exists yet)
+                frame.vars[target.value.id] = self.updated_array(obj, idx, v)
+                return
             self.set_item(obj, idx, v)
         else:
             raise Unsupported(f"assignment target {type(target).__name__}")
+
+    def updated_array(self, obj, idx, v):
+        if isinstance(v, (SymSeq, tuple, list)):
+            raise Unsupported("array-valued store into a fresh array")
+        n = obj.length
+        zn = to_int_z(n)
+        old_get = obj.getter
+        if isinstance(idx, SliceVal):
+            if idx.step is not None and idx.step != 1:
+                raise Unsupported("slice step in store")
+
+            def normb(b, default):
+                if b is None:
+                    return default
+                zb = to_int_z(b)
+                return mk(z3.If(zb < 0, z3.If(zb + zn < 0, 0, zb + zn), z3.If(zb > zn, zn, zb)))
+
+            lo, hi = normb(idx.lo, 0), normb(idx.hi, n)
+
+            def getter(i, _lo=lo, _hi=hi):
+                return v_ite(v_and(v_cmp("LtE", _lo, i), v_cmp("Lt", i, _hi)), v, old_get(i))
+        else:
+            if isinstance(idx, (tuple, list, SymSeq)) or (isinstance(idx, Sym) and idx.kind != "int"):
+                raise Unsupported("store index into a fresh array")
+            zi = to_int_z(idx)
+            self.ctx.oblige_implicit("store-index-in-range", z3.And(zi >= -zn, zi < zn))
+            pos = mk(z3.If(zi < 0, zi + zn, zi))
+
+            def getter(i, _pos=pos):
+                return v_ite(v_cmp("Eq", i, _pos), v, old_get(i))
+        r = SymSeq(n, getter, "updated")
+        r.fresh_array = True
+        return r
 
     def pointwise_selector(self, idx):
         """Truth value of `this element is selected by idx` (boolean mask element, or the zero-frequency pixel)."""
